@@ -19,8 +19,8 @@ import random
 ID = "C21"
 LEVEL = "exploration"
 TIERS = {
-    "quick": {"runs": 8000, "wall": 80, "chunk": 50, "shrink_s": 40, "run_cap_s": 60},
-    "thorough": {"runs": 400_000, "wall": 840, "chunk": 60, "shrink_s": 120, "run_cap_s": 60},
+    "quick": {"runs": 8000, "wall": 80, "chunk": 50, "shrink_s": 40, "run_cap_s": 120},
+    "thorough": {"runs": 400_000, "wall": 840, "chunk": 60, "shrink_s": 120, "run_cap_s": 120},
 }
 RULE = (
     "one run = one random dynamic circuit on 2-4 wires with 1-4 mid-circuit measurements (reset, "
